@@ -161,6 +161,7 @@ inductive Res where
   | notifyErr     -- error returned by NotifyNewBlocks
   | mismatch      -- (fixed code) the exchange answered with a different CID
   | storeErr      -- error returned by blockstore.Put / PutMany
+  | readErr       -- error (other than not-found) returned by blockstore.Get
   deriving DecidableEq, Repr
 
 /-! The blockstore may FAIL a write: `pf : Option Nat` is the number of write calls (Put / PutMany) of
@@ -196,10 +197,11 @@ def addBlocks (cfg : Cfg) (st : Store) (bs : List Blk) (pf : Option Nat := none)
       (st.putMany toput, .ok, toput.map .put ++ (if cfg.hasEx then [.notify toput] else []))
 
 /-- getBlock. `ans`: what `fetch.GetBlock` returns (`none` = error); `nOk`: whether NotifyNewBlocks succeeds. -/
-def getBlock (cfg : Cfg) (st : Store) (c : Cid) (ans : Option Blk) (nOk : Bool) (pf : Option Nat := none) :
-    Store × Res × List Ev :=
+def getBlock (cfg : Cfg) (st : Store) (c : Cid) (ans : Option Blk) (nOk : Bool) (pf : Option Nat := none)
+    (rdOk : Bool := true) : Store × Res × List Ev :=
   match validate cfg.al c.code c.len with
   | .ok =>
+    if !rdOk then (st, .readErr, []) else   -- blockstore.Get failed with an error that is not "not found": returned
     match st.get c.mh with
     | some d => (st, .blk (c, d), [.emit (c, d)])
     | none =>
@@ -238,6 +240,19 @@ def splitLocal (st : Store) : List Cid → List Blk × List Cid
     | some d => ((c, d) :: hs, ms)
     | none => (hs, c :: ms)
 
+/-- the local lookup loop when blockstore.Get may FAIL: `rd i` = the i-th Get call of this getBlocks call
+succeeds. ANY error of Get makes the key a miss (`if err != nil { misses = append(misses, c) }`), so a stored
+block whose read failed is requested from the exchange. -/
+def splitLocalR (st : Store) (rd : Nat → Bool) : Nat → List Cid → List Blk × List Cid
+  | _, [] => ([], [])
+  | i, c :: r =>
+    let (hs, ms) := splitLocalR st rd (i + 1) r
+    if !rd i then (hs, c :: ms)
+    else
+      match st.get c.mh with
+      | some d => ((c, d) :: hs, ms)
+      | none => (hs, c :: ms)
+
 /-- the receive loop of getBlocks over the blocks the exchange channel yields.
 `nf`: number of NotifyNewBlocks calls that succeed before one fails (`none` = all succeed); `pf`: the same for
 blockstore.Put. -/
@@ -259,9 +274,9 @@ def fetchLoop (fixed : Bool) (misses : List Cid) : Store → Option Nat → Opti
 /-- getBlocks. `ans`: what `fetch.GetBlocks` returns: `none` = error, `some bs` = the blocks sent on the
 channel before it is closed. -/
 def getBlocks (cfg : Cfg) (st : Store) (ks : List Cid) (ans : Option (List Blk)) (nf : Option Nat)
-    (pf : Option Nat := none) : Store × List Ev :=
+    (pf : Option Nat := none) (rd : Nat → Bool := fun _ => true) : Store × List Ev :=
   let ks := filterKeys cfg.al ks
-  let (hits, misses) := splitLocal st ks
+  let (hits, misses) := splitLocalR st rd 0 ks
   let evs := hits.map .emit
   if misses.isEmpty || !cfg.hasEx then (st, evs)
   else
@@ -296,15 +311,15 @@ exchange and of the blockstore (write failures) during that call. -/
 inductive Op where
   | add (b : Blk) (pf : Option Nat)
   | addMany (bs : List Blk) (pf : Option Nat)
-  | get (c : Cid) (ans : Option Blk) (nOk : Bool) (pf : Option Nat)
-  | getMany (ks : List Cid) (ans : Option (List Blk)) (nf : Option Nat) (pf : Option Nat)
+  | get (c : Cid) (ans : Option Blk) (nOk : Bool) (pf : Option Nat) (rdOk : Bool)
+  | getMany (ks : List Cid) (ans : Option (List Blk)) (nf : Option Nat) (pf : Option Nat) (rd : Nat → Bool)
   | del (c : Cid)
 
 def stepOp (cfg : Cfg) (st : Store) : Op → Store × List Ev
   | .add b pf => let r := addBlock cfg st b pf; (r.1, r.2.2)
   | .addMany bs pf => let r := addBlocks cfg st bs pf; (r.1, r.2.2)
-  | .get c ans nOk pf => let r := getBlock cfg st c ans nOk pf; (r.1, r.2.2)
-  | .getMany ks ans nf pf => getBlocks cfg st ks ans nf pf
+  | .get c ans nOk pf rdOk => let r := getBlock cfg st c ans nOk pf rdOk; (r.1, r.2.2)
+  | .getMany ks ans nf pf rd => getBlocks cfg st ks ans nf pf rd
   | .del c => (deleteBlock st c, [])
 
 /-- a whole history: final store and the concatenated trace -/
